@@ -2,12 +2,23 @@ pub mod backend;
 pub mod c04;
 pub mod c09;
 pub mod driver;
+pub mod dyntab;
 pub mod genr;
+pub mod hist;
+pub mod histchecks;
 pub mod mmops;
 pub mod mv;
 pub mod tableops;
 pub mod tape;
 
 pub fn all_checks() -> Vec<Box<dyn driver::Check>> {
-    vec![Box::new(c04::C04), Box::new(c09::C09)]
+    vec![
+        Box::new(c04::C04),
+        Box::new(c09::C09),
+        Box::new(histchecks::c02()),
+        Box::new(histchecks::c05()),
+        Box::new(histchecks::c07()),
+        Box::new(histchecks::c13()),
+        Box::new(histchecks::c17()),
+    ]
 }
